@@ -454,7 +454,7 @@ func (ig *ingest) roundRules(e *Effect) {
 					okc = true
 				}
 			}
-			ev.Verdict("K6.round", props("C15", "C13"), "the new-round callback gets the context issued for (the new height, 0)", "", okc, "context is "+PP(ctx)+", height argument is "+PP(ev.Arg(1)))
+			ev.Verdict("K6.round", props("C15", "C13", "C16"), "the new-round callback gets the context issued for (the new height, 0)", "", okc, "context is "+PP(ctx)+", height argument is "+PP(ev.Arg(1)))
 		}
 		ev.Verdict("H6.cb", props("C13"), "the new-round callback runs only after a successful strict height increase", "", n > 0, "no successful SetHeightAndResetView on the path")
 		okH := false
@@ -1199,7 +1199,7 @@ func runTimer(a *Analyzer, r *Results) {
 		case e.Kind == "call" && e.Name == "time.AfterFunc":
 			afterFunc = e
 			ev.Require("T4", props("C19", "C16"), "the previous timer is stopped before a new one is armed", "", Done(Call("Electiontrigger.Stop", trg)))
-			ev.Verdict("T1.arg", pr, "the timer is armed with CalcTimeout(view) of the registered view", "", ev.Arg(0).Key() == Call("Electiontrigger.CalcTimeout", trg, vArg).Key(), "duration is "+PP(ev.Arg(0)))
+			ev.Verdict("T1.arg", props("C19", "C12"), "the timer is armed with CalcTimeout(view) of the registered view", "", ev.Arg(0).Key() == Call("Electiontrigger.CalcTimeout", trg, vArg).Key(), "duration is "+PP(ev.Arg(0)))
 			// T3: not reached for an identical registration
 			ev.RequireAny("T3", pr, "re-registering the armed (height, view) is a no-op (the running timer is not restarted)", "",
 				[]*Atom{Eq(Field(trg, "electionHandler"), tNil)}, []*Atom{Ne(Field(trg, "view"), vArg)}, []*Atom{Ne(Field(trg, "blockHeight"), hArg)})
@@ -1253,20 +1253,45 @@ func runTimer(a *Analyzer, r *Results) {
 			cleared = true
 		}
 	}
-	for _, b := range stop.Blocks {
-		for _, in := range b.Instrs {
-			c, ok := in.(*ssa.Call)
-			if !ok || !isBuiltin(c, "close") {
-				continue
-			}
-			nClose++
-			cx := a.NewFCtx(stop, a.EntryEnv(stop, nil), 0)
-			fl := a.NewFlow(cx, nil)
+	{
+		cx := a.NewFCtx(stop, a.EntryEnv(stop, nil), 0)
+		fl := a.NewFlow(cx, nil)
+		tm := Field(trg, "timer")
+		guardedAt := func(in ssa.Instruction) bool {
 			facts := fl.At(in)
-			tm := Field(trg, "timer")
-			if facts != nil && cx.Term(c.Call.Args[0]).Key() == Field(trg, "triggerCancelled").Key() {
-				if facts.Has(NotA(Truth(Call("time.Stop", tm)))) != nil && facts.Has(Ne(tm, tNil)) != nil {
-					closedOK = true
+			return facts != nil && facts.Has(NotA(Truth(Call("time.Stop", tm)))) != nil && facts.Has(Ne(tm, tNil)) != nil
+		}
+		for _, b := range stop.Blocks {
+			for _, in := range b.Instrs {
+				c, ok := in.(*ssa.Call)
+				if !ok {
+					continue
+				}
+				if isBuiltin(c, "close") {
+					nClose++
+					if cx.Term(c.Call.Args[0]).Key() == Field(trg, "triggerCancelled").Key() && guardedAt(in) {
+						closedOK = true
+					}
+					continue
+				}
+				// the close moved into a helper of the trigger: it must be the helper's unconditional first action, and the
+				// call must be guarded as the close itself would be
+				g := c.Call.StaticCallee()
+				if g == nil || len(g.Blocks) == 0 || g.Signature.Recv() == nil || typeShort(g.Signature.Recv().Type()) != typeShort(stop.Signature.Recv().Type()) {
+					continue
+				}
+				gx := a.NewFCtx(g, a.EntryEnv(g, nil), 0)
+				for _, gb := range g.Blocks {
+					for _, gi := range gb.Instrs {
+						gc, isC := gi.(*ssa.Call)
+						if !isC || !isBuiltin(gc, "close") {
+							continue
+						}
+						nClose++
+						if gb == g.Blocks[0] && gx.Term(gc.Call.Args[0]).Key() == Field(trg, "triggerCancelled").Key() && guardedAt(in) {
+							closedOK = true
+						}
+					}
 				}
 			}
 		}
